@@ -75,7 +75,8 @@ Proof.
   all: destruct ds as [|r d]; cbv zeta;
       (match goal with |- context [rand_partition Op ?a ?x ?y ?z] => destruct (rand_partition Op a x y z) as [arr' q] end);
       cbv beta iota zeta;
-      (match goal with |- context [(?a <? ?b)%Z] => destruct (a <? b)%Z end); apply IH.
+      repeat (match goal with |- context [(?a <? ?k)%Z] => destruct (Z.ltb_spec a k) end);
+      try lia; rewrite IH; f_equal; lia.
 Qed.
 
 (* ---- selSPEA2 (lines 725-743 and the branch structure; the two archive branches are separate units) ---- *)
@@ -120,20 +121,20 @@ Ltac dd := (* the dominance tests of one pair *)
    = the fold of pair_step over pairs N; generic in how the body is written: it only has to compute
    pair_step on every pair i < j < N *)
 Ltac spea2_phase1 inds N w :=
-  match goal with |- context [for_ (enum 0 inds) ?F ?s0] =>
+  match goal with |- context [for_ ?xs ?F (repeat 0%nat N, ?D0)] =>
     let P1 := fresh "P1" in
-    assert (P1 : for_ (enum 0 inds) F s0 = phase1 Op w N) by
-     (rewrite (for_enum (@nil T, @nil T)); rewrite ?map_const_seq; unfold phase1;
+    assert (P1 : for_ xs F (repeat 0%nat N, D0) = phase1 Op w N) by
+     (rewrite ?(for_enum (@nil T, @nil T)); rewrite ?map_const_seq; unfold phase1;
       change (fold_left (pair_step Op w) (pairs N)) with (for_ (pairs N) (fun p st => pair_step Op w st p));
       unfold pairs; rewrite for_flat_map; fold N;
       apply for_ext; (let i := fresh "i" in let st := fresh "st" in let Hi := fresh "Hi" in
       intros i st Hi; apply in_seq in Hi;
       cbv beta iota zeta; destruct st as [? ?]; rewrite ?pair_eta;
-      rewrite for_map, (for_enum (@nil T, @nil T)), skipn_length, ?Nat.add_1_r; fold N;
+      rewrite for_map, ?(for_enum (@nil T, @nil T)), ?skipn_length, ?Nat.add_1_r; fold N;
       apply for_ext; (let j := fresh "j" in let st' := fresh "st" in let Hj := fresh "Hj" in
       intros j st' Hj; apply in_seq in Hj;
       cbv beta iota zeta; destruct st' as [? ?];
-      rewrite ?nth_skipn; replace (S i + (j - S i))%nat with j by lia; rewrite ?Nat.sub_0_r;
+      rewrite ?nth_skipn; try (replace (S i + (j - S i))%nat with j by lia); rewrite ?Nat.sub_0_r;
       unfold pair_step, w; rewrite !nth_map_snd; unfold incr, push;
       dd; rewrite ?Nat.add_1_r; reflexivity)));
     rewrite P1; clear P1
